@@ -137,14 +137,13 @@ class StateAugmentation(object):
 
     def __call__(self, td: TensorDict) -> TensorDict:
         td_aug = batchify(td, self.num_augment)
+        kw = {}
+        if not self.first_aug_identity and self.augmentation is symmetric_augmentation:
+            kw["first_augment"] = True  # rotate / reflect the first copy as well
         for feat in self.feats:
-            if not self.first_aug_identity:
-                init_aug_feat = td_aug[feat][list(td.size()), 0].clone()
-            aug_feat = self.augmentation(td_aug[feat], self.num_augment)
+            aug_feat = self.augmentation(td_aug[feat], self.num_augment, **kw)
             if self.normalize:
                 aug_feat = min_max_normalize(aug_feat)
-            if not self.first_aug_identity:
-                aug_feat[list(td.size()), 0] = init_aug_feat
             td_aug[feat] = aug_feat
 
         return td_aug
